@@ -343,6 +343,16 @@ def run_scenario(sc):
             out["after_stop_send"] = "hang"
         except Exception as e:  # noqa: BLE001
             out["after_stop_send"] = type(e).__name__
+        # ... and the batch API, on a topic the producer has never used (its metadata is not cached)
+        try:
+            b_ = p.create_batch()
+            b_.append(key=None, value=b"late", timestamp=None)
+            await asyncio.wait_for(p.send_batch(b_, "t-never-used", partition=0), timeout=5.0)
+            out["after_stop_send_batch"] = "returned"
+        except asyncio.TimeoutError:
+            out["after_stop_send_batch"] = "hang"
+        except Exception as e:  # noqa: BLE001
+            out["after_stop_send_batch"] = type(e).__name__
         res = []
         for ent in sends:
             (rid, ti, part, ts, fut, key, val, hdrs) = ent[:8]
